@@ -392,9 +392,19 @@ func (vc *VC) inlineLit(st *State, call *ast.CallExpr, fn *FuncVal, sig *types.S
 		return true
 	})
 	if hasLoop {
-		vc.uncontracted["closure with loop at "+vc.w.pos(fn.Lit.Pos())] = true
-		vc.havocAllHeap(st)
-		return vc.havocResults(st, "closure", sig)
+		// loops of closures written inside the function under verification are numbered with its loops
+		own := false
+		ast.Inspect(fn.Lit.Body, func(nd ast.Node) bool {
+			if _, ok := vc.loopIndex[nd]; ok {
+				own = true
+			}
+			return true
+		})
+		if !own {
+			vc.uncontracted["closure with loop at "+vc.w.pos(fn.Lit.Pos())] = true
+			vc.havocAllHeap(st)
+			return vc.havocResults(st, "closure", sig)
+		}
 	}
 	return vc.inlineCall(st, call, pi, fn.Lit.Type, fn.Lit.Body, nil, sig, nil, args, nil)
 }
